@@ -36,17 +36,6 @@ theorem mem_applyFlatCb (s : List Range) (cb : FlatCb) (x : Range) :
     x ∈ applyFlatCb s cb ↔ x = cb.n ∨ (x ∈ s ∧ x ≠ cb.oa ∧ x ≠ cb.ob) := by
   simp [applyFlatCb, mem_heapPush, List.mem_filter]
 
-/-- Each callback leaves the denotation of the label set unchanged. -/
-def MergeOk : List Range → List FlatCb → Prop
-  | _, [] => True
-  | s, cb :: cbs => (∀ c, Den (applyFlatCb s cb) c ↔ Den s c) ∧ MergeOk (applyFlatCb s cb) cbs
-
-/-- Each callback finds both `oa` and `ob` in the label set (the two `assert.True` in
-`mode.mergeTransitions`). -/
-def MergeAsserts : List Range → List FlatCb → Prop
-  | _, [] => True
-  | s, cb :: cbs => (cb.oa ∈ s ∧ cb.ob ∈ s) ∧ MergeAsserts (applyFlatCb s cb) cbs
-
 /-- Relation between the loop state and the label set `s`. -/
 structure LogInv (l acc s : List Range) : Prop where
   sub : ∀ x ∈ s, x ∈ acc ∨ x ∈ l
